@@ -15,7 +15,7 @@ Not decided: the global sum over arbitrary histories (arithmetic consequence of 
 import re
 
 from facts import short_name, ADAPTERS
-from kinds import (k1_callers, arith_sites, enum_switches, adt_variant_count, result_blocks,
+from kinds import (exhaustive_loops, k1_callers, arith_sites, enum_switches, adt_variant_count, result_blocks,
                    on_all_success_paths, error_cut, comparisons, bool_payload_edges)
 
 CRATES = ["astria_sequencer.lib"]
@@ -207,6 +207,9 @@ def l3(prog, rep):
                   c.where(), detail=f"{a[2][-40:]} / {a[3][-40:]}")
         rep.check(body.outcome_edges(c)["kind"] == "try", "L3", "FEE-OUT:propagated",
                   "a failed fee payout is swallowed", c.where())
+    exhaustive_loops(rep, "L3", body, r"get_block_fees\(self\.state\)", 1, "FEE-OUT: the block's fee map",
+                     "fees of the remaining assets were debited from payers but are never "
+                     "credited to the fee recipient", ok_only=True)
     # IBC-OUT
     o = CA + "ics20_withdrawal::CheckedIcs20Withdrawal::execute"
     body = prog.main_body(o)
